@@ -62,8 +62,9 @@ CHECKS = {
     design_ref="DESIGN.md 5 C16",
     note="Trusted: row identity via the name column, `rest` digests of the remaining columns (None/NaN unified). Covered functions: junction(s), "
          "pipe(s)_from_parameters, valve(s), sink(s), ext_grid, flow_control(s), heat_exchanger(s), heat_consumer; argument positions: index, every "
-         "junction/pipe reference, et, geodata, heat-consumer spec. Not covered yet: documented default values per column, std-type vs parameter "
-         "creation, remaining create functions (pump, compressor, circulation pumps, pressure control, mass storage, source).",
+         "junction/pipe reference, et, geodata, heat-consumer spec. Documented defaults (PPDefaults.tla, transcribed from the baseline signatures) are "
+         "compared for all 15 single create functions (46 cells). Not covered yet: std-type vs parameter creation; invalid-argument enumeration for "
+         "pump, compressor, circulation pumps, pressure control, mass storage, source.",
     technique="TLA+ editing machine (PPEdit/MC_Edit) model-checked with TLC + TLC-generated calls replayed into create_* + trace validation (Trace_Edit)"),
  "C17": dict(
     level="model_checking",
@@ -74,8 +75,8 @@ CHECKS = {
          "demands exact agreement for relabelling (incl. stored results following), no dangling reference and untouched unrelated rows otherwise.",
     design_ref="DESIGN.md 5 C17",
     note="Trusted: projection harness/edit.project (identity in name column, rest/rtag digests). Exhaustive over all single operations of the model "
-         "(about 750 incl. all lookups with <=2 keys into 6 targets), plus seeded 3-op histories mixing creation and tools. The subnet-reproduces-"
-         "results clause is not yet included.",
+         "(about 750 incl. all lookups with <=2 keys into 6 targets), plus seeded 3-op histories mixing creation and tools; plus select_subnet of the "
+         "supplied region of ~900 TLC-generated nets followed by a pipeflow that must reproduce the region's results (Trace_PF.C17_Subnet).",
     technique="TLA+ editing machine (PPEdit/MC_Edit) model-checked with TLC + TLC-generated tool calls replayed into pandapipes.toolbox + trace validation (Trace_Edit)"),
  "C01": dict(level="model_checking", text="(a) Every designed scenario's reported flows equal the designed integers and balance at every junction (Trace_Ref); (b) TLC-generated nets of all component kinds (water / lgas) are solved and Trace_PF sums the REPORTED flows at every supplied junction and over the net in 1e-9 kg/s ticks (slack per term, not per network size).", design_ref="DESIGN.md 5 C01", note='Trusted: designed constants (harness/designed.py: D*, eta, k), the harness-computed barometric table (documented formula, 1e-6 bar), tick projection. The exact clauses cover the designed liquid family only (constant-property fluid, nikuradse friction, pipes / valves / heat exchangers, trees + chords, up to 6 junctions sampled, <=3 junctions exhaustive in the model); gases, colebrook / swamee-jain and library fluids are not yet covered by the exact reference (limits in DESIGN.md section 6).', technique='TLA+ exact reference model (PPRefHyd/GenHyd) model-checked with TLC + TLC-generated scenarios replayed into pandapipes + trace validation (Trace_Ref/Trace_PF)'),
  "C02": dict(level="model_checking", text="Scenarios of the exact reference model PPRefHyd (integer arithmetic for the documented liquid law: hydrostatic + Darcy-Weisbach with lambda = 64/Re + 1/16 + lumped loss) are generated by TLC, solved by pandapipes and every reported end pressure, mass flow, velocity, Reynolds number, friction factor and volume flow is compared with TLC's own prediction within 2e-6.", design_ref="DESIGN.md 5 C02", note='Trusted: designed constants (harness/designed.py: D*, eta, k), the harness-computed barometric table (documented formula, 1e-6 bar), tick projection. The exact clauses cover the designed liquid family only (constant-property fluid, nikuradse friction, pipes / valves / heat exchangers, trees + chords, up to 6 junctions sampled, <=3 junctions exhaustive in the model); gases, colebrook / swamee-jain and library fluids are not yet covered by the exact reference (limits in DESIGN.md section 6).', technique='TLA+ exact reference model (PPRefHyd/GenHyd) model-checked with TLC + TLC-generated scenarios replayed into pandapipes + trace validation (Trace_Ref/Trace_PF)'),
@@ -92,7 +93,7 @@ CHECKS = {
          "valves at one end are closed, components, unsupplied = no pressure-fixing feeder in the component, graph = solver pattern = PPConn on the "
          "common scope, single- and multi-source distances = shortest-path sums of pipe lengths (Bellman-Ford in TLA+).",
     design_ref="DESIGN.md 5 C18",
-    note="Default arguments only (include_* / respect_status_* combinations not enumerated yet). Graph-vs-solver clause restricted to component mixes "
+    note="Defaults plus one seeded random include_* / respect_status_* / respect_status_junctions combination per net. Graph-vs-solver clause restricted to component mixes "
          "without active flow controllers, heat consumers and pressure controllers, where graph connectivity and hydraulic coupling are not meant to "
          "coincide. Nets up to 4 junctions / 4 branches / 2 pipe-valves.",
     technique="TLA+ connectivity/graph semantics (PPConn, Trace_Graph) + TLC-generated nets replayed into pandapipes.topology and pipeflow + trace validation"),
